@@ -31,9 +31,18 @@ SEEDS = [
  ("c04-2", "C04", "spmc pop: the bit-63 'switching' flag is no longer stripped from the CAS comparand",
   "a second consumer's pop while another consumer is between its head->head|bit63 CAS and the following head.store (block switch): the same task is handed out twice",
   "c04_spmc_np_stealer_root_k3_d1", "CAUGHT (thorough tier)", "refuted 'a task was obtained twice' plus use-after-free dereferences in 7 min / 24 GB by the stalled-stealer harness, which is in the thorough tier only (too heavy for the quick tier); the runner first mis-reported the run as inconclusive because CBMC leaves the other checks undetermined after a fatal pointer failure - classification order fixed"),
+ ("c05-2", "C05", "Mutex::lock: a locker whose fetch_add found the count at zero returns a guard right after waking the first queued waiter, instead of parking on its own blocker",
+  "three lockers: A releases to zero while B and C have both failed try_lock; B pushes its blocker, C pushes and increments first, pops B, unparks B and returns a guard; B then increments, finds its token and returns a guard too",
+  None, "MISSED", "needs two lockers (B and C) both in the middle of lock() while a third has just released: a non-nested three-party interleaving; the C05 harnesses have two lockers (stated bound). A third locker would have to be added as a second nested actor at depth 2 with B pre-empted between push and fetch_add and C's lock begun before A's release"),
+ ("c06-1", "C06", "mpsc InnerQueue::recv: try_recv first, register only on Empty, re-check after registration removed",
+  "a complete send (push, to_wake.take() == None) between the receiver's try_recv returning Empty and its to_wake.store, with no later send or sender drop",
+  "c06_mpsc_thread_recv_vs_sends_and_drop_d1", "CAUGHT", "'receiver stays parked for ever although a sent value is queued'"),
  ("c07-1", "C07", "spsc drop_chan: wait_co.take() moved before channels.store(0)",
   "the receiver's registration and re-check both land between the sender's take() and its store: nobody is woken",
   "c07_spsc_last_sender_drop_vs_registering_receiver", "CAUGHT-AFTER-STRENGTHENING", "receiver-root harness cannot see it (the receiver's registration would have to land inside the sender's operation although recv began earlier); added the twin with the drop as root and the receiver's real Park::subscribe landing at any atomic step of drop_chan (7 s)"),
+ ("c12-2", "C12", "RwLock::try_read counts the reader before the first-reader try_lock and does not undo it on the WouldBlock give-up path",
+  "a try_read that fails under a held writer leaves a phantom reader; later readers then enter without the global lock / a live read guard no longer blocks writers",
+  "c12_rwlock_seq_3ops", "CAUGHT", "3-operation history try_write, try_read, try_read: 'try_read succeeded while a write guard is alive' (26 s)"),
  ("c13-1", "C13", "RwLockWriteGuard::drop: write_unlock() before poison.done()",
   "a contender acquires the lock between the release and the poison-flag store of a panicking writer's guard drop and gets Ok instead of Poisoned",
   "c13_rwlock_panicking_writer_drop_vs_contender", "CAUGHT-AFTER-STRENGTHENING", "the sequential poison harnesses see the right end state; added a contender (try_write / try_read) at any atomic step of the panicking holder's guard drop, for RwLock and Mutex"),
